@@ -650,7 +650,7 @@ class ParsedObject:
 def _hash(value):
     # A plain tuple is always hashed item by item, so that it hashes like an
     # equal tuple that has an unhashable item.
-    if type(value) is tuple:
+    if value.__class__ is tuple:
         return hash(tuple([_hash(item) for item in value]))
 
     try:
@@ -674,7 +674,7 @@ def _hash(value):
         else:
             # Any other unhashable value. All values of one type hash alike,
             # and "==" tells them apart.
-            return hash(type(value))
+            return hash(value.__class__)
 
 
 class _Metadata:
